@@ -90,9 +90,15 @@ impl Gen {
 
     /// Bytes that finish the current message, followed by one other complete message on csid 2.
     fn take_with_message(&mut self, type_id: u8, body: &[u8]) -> Vec<u8> {
+        self.take_with_message_on(type_id, body, 0)
+    }
+
+    /// As above, on the given message stream (little-endian in the header).
+    fn take_with_message_on(&mut self, type_id: u8, body: &[u8], msid: u32) -> Vec<u8> {
         let rest = if self.off < self.cur.len() { self.cur.len() - self.off } else { 0 };
         let mut out = self.take(rest);
-        out.extend_from_slice(&[0x02, 0, 0, 0, 0, 0, body.len() as u8, type_id, 0, 0, 0, 0]);
+        out.extend_from_slice(&[0x02, 0, 0, 0, 0, 0, body.len() as u8, type_id]);
+        out.extend_from_slice(&msid.to_le_bytes());
         out.extend_from_slice(body);
         self.fresh = true; // the next Abort needs a full header again (type changed on csid 2)
         self.cur.clear();
@@ -126,6 +132,10 @@ pub enum Act {
     /// an application call between two input calls (no bytes arrive): server accept_request(0) / client
     /// request_connection; it must neither emit an Acknowledgement nor disturb the accounting
     App,
+    /// a message on a given message stream: (message stream id, type id, body)
+    OtherOn(u32, u8, Vec<u8>),
+    /// the server application accepts the outstanding request with this id
+    AppAccept(u32),
 }
 
 pub struct G {
@@ -244,13 +254,22 @@ impl Graph for G {
                 }
                 o
             }
-            Act::App => {
+            Act::OtherOn(msid, t, body) => {
+                let bytes = g.take_with_message_on(*t, body, *msid);
+                self.others.fetch_add(1, Ordering::Relaxed);
+                let mut o = self.apply(s, &bytes, None, a);
+                for x in o.succ.iter_mut() {
+                    x.gen = g.clone();
+                }
+                o
+            }
+            Act::App | Act::AppAccept(_) => {
                 let mut out = StepOut::new();
                 let mut n = s.clone();
                 out.impl_steps += 1;
                 let (ok, packets) = match &mut n.sess {
                     Sess::Server(h) => {
-                        let o = h.step(&SAct::Accept { id: 0 });
+                        let o = h.step(&SAct::Accept { id: if let Act::AppAccept(i) = a { *i } else { 0 } });
                         (o.panicked.is_none(), o.packets)
                     }
                     Sess::Client(h) => {
@@ -296,6 +315,8 @@ impl Graph for G {
             Act::Reannounce(w) => json!({"call_finishing_current_message_then_window_announcement": w}),
             Act::Other(t, body) => json!({"call_finishing_current_message_then_message": {"type_id": t, "body": crate::util::hex(body)}}),
             Act::App => json!("application call between input calls (server: accept_request(0), client: request_connection)"),
+            Act::OtherOn(m, t, body) => json!({"call_finishing_current_message_then_message": {"message_stream_id": m, "type_id": t, "body": crate::util::hex(body)}}),
+            Act::AppAccept(i) => json!({"application_accepts_request": i}),
         }
     }
 }
@@ -463,6 +484,48 @@ pub fn run(run: &Run) {
             }
         }
         run.count("application_call_scripts", n);
+    }
+    // ---- a publishing (and a playing) stream is closed / deleted while a window is in force: nothing but the byte
+    //      count decides about acknowledgements ----
+    {
+        use crate::refmodel::amf0::{encode_seq, V};
+        let cmd = |name: &str, tx: f64, args: Vec<V>| {
+            let mut vals = vec![V::Str(name.into()), V::Num(tx.to_bits()), V::Null];
+            vals.extend(args);
+            encode_seq(&vals, &Default::default())
+        };
+        let connect = encode_seq(&[V::Str("connect".into()), V::Num(1f64.to_bits()), V::Obj(vec![("app".into(), V::Str("a".into()))])], &Default::default());
+        let mut n = 0u64;
+        for w in [5_000u32, 300, 40] {
+            for (second, closer) in [("publish", "deleteStream"), ("publish", "closeStream"), ("play", "deleteStream"), ("play", "closeStream")] {
+                let g = G { w0: w, sizes: vec![], reannounce: vec![], acks: AtomicU64::new(0), exact_landings: AtomicU64::new(0), reannouncements: AtomicU64::new(0), others: AtomicU64::new(0) };
+                let req_args = if second == "publish" { vec![V::Str("k".into()), V::Str("live".into())] } else { vec![V::Str("k".into())] };
+                let script = vec![
+                    Act::Reannounce(w), Act::Other(20, connect.clone()), Act::AppAccept(0), Act::Other(20, cmd("createStream", 2.0, vec![])),
+                    Act::OtherOn(1, 20, cmd(second, 0.0, req_args)), Act::AppAccept(1), Act::Call(9), Act::OtherOn(1, 8, vec![0xAF, 1, 2, 3]),
+                    if closer == "deleteStream" { Act::Other(20, cmd(closer, 0.0, vec![V::Num(1f64.to_bits())])) } else { Act::OtherOn(1, 20, cmd(closer, 0.0, vec![V::Num(1f64.to_bits())])) },
+                    Act::Call(3), Act::Call(w as usize), Act::Call(1),
+                ];
+                let mut cur = fresh(0);
+                let mut done: Vec<Value> = Vec::new();
+                for a in script.iter() {
+                    let o = g.step(&cur, a);
+                    ti += o.impl_steps;
+                    tt += 1;
+                    done.push(g.describe(a));
+                    if let Some((sig, d)) = o.viol.into_iter().next() {
+                        run.violation(&format!("{}/server", sig), &d, json!({"session": "server", "window": w, "graph": format!("{} then {}", second, closer), "ops": done}));
+                        break;
+                    }
+                    cur = match o.succ.into_iter().next() {
+                        Some(x) => x,
+                        None => break,
+                    };
+                }
+                n += 1;
+            }
+        }
+        run.count("stream_lifecycle_scripts", n);
     }
     // ---- sampled large windows (labelled as sampled, as the property itself does) ----
     let big: Vec<u32> = if thorough { vec![100, 4096, 65_535, 1 << 24, 1 << 31, u32::MAX] } else { vec![100, 65_535, 1 << 24] };
